@@ -512,6 +512,14 @@ func zzvServe(q *zzvRequest, size int64) *zzvRW {
 // Oracle (RFC 7232 section 6 and RFC 7233, as far as the property states them).
 // ---------------------------------------------------------------------------------------------------
 
+// zzvAssertThenAssume checks cond and then continues under it: the later clauses of the oracle are only
+// evaluated on inputs that passed the earlier ones (a failure of the earlier clause is reported on its own),
+// which hands the solver the facts it has just proved.
+func zzvAssertThenAssume(id string, cond bool) {
+	verifrt.Assert(id, cond)
+	verifrt.Assume(cond)
+}
+
 func zzvCheck(q *zzvRequest, size int64, w *zzvRW) {
 	code := w.code
 	if code == 400 && q.raw && strings.Contains(string(w.text), "could not seek to location") {
@@ -603,7 +611,7 @@ func zzvCheck(q *zzvRequest, size int64, w *zzvRW) {
 			return
 		}
 		verifrt.Assert("C30.206-only-for-honoured-range", !rangeIgnored && anySat)
-		verifrt.Assert("C30.206-range-inside-file", 0 <= crS && crS <= crE && crE < size && crTotal == size)
+		zzvAssertThenAssume("C30.206-range-inside-file", 0 <= crS && crS <= crE && crE < size && crTotal == size)
 		match := false
 		for _, s := range q.specs {
 			if first, last, ok := s.slice(size); ok && !s.malformed() {
@@ -613,10 +621,10 @@ func zzvCheck(q *zzvRequest, size int64, w *zzvRW) {
 			}
 		}
 		verifrt.Assert("C30.206-range-is-a-requested-slice", match)
-		verifrt.Assert("C30.206-content-length", hasCL && cl == crE-crS+1)
+		zzvAssertThenAssume("C30.206-content-length", hasCL && cl == crE-crS+1)
 		if !q.head {
-			verifrt.Assert("C30.206-body-starts-at-range-start", w.fileStart == crS)
-			verifrt.Assert("C30.206-body-length", w.fileBytes == crE-crS+1)
+			zzvAssertThenAssume("C30.206-body-starts-at-range-start", w.fileStart == crS)
+			verifrt.Assert("C30.206-body-length", w.fileBytes == cl)
 		}
 	case 200:
 		verifrt.Assert("C30.200-no-content-range", crKind == zzvCRNone)
